@@ -709,6 +709,10 @@ class Eval:
         'packed::ext::Pointer::distance': lambda a, b: a - b, 'packed::ext::Pointer::as_usize': lambda a: a,
         'core::num::trailing_zeros': lambda x: (x & -x).bit_length() - 1 if x else 64,
         'core::num::count_ones': lambda x: bin(x).count('1'),
+        # orderings are -1 / 0 / 1
+        'core::cmp::Ord::cmp': lambda a, b: (a > b) - (a < b), 'core::cmp::Ordering::reverse': lambda o: -o,
+        'core::cmp::PartialOrd::partial_cmp': lambda a, b: ('Some', (a > b) - (a < b)),
+        'core::cmp::Ordering::then': lambda o, p: o if o != 0 else p,
     }
     # the crate's integer newtypes are transparent
     for _ty in ('StateID', 'PatternID', 'SmallIndex'):
